@@ -77,6 +77,7 @@ class Slot:
         self.ci = ci
         self.path = tuple(path)
         self.template = template      # assignment with all ints 0
+        self.candidates = [template]  # alternative template assignments (other registers / alternatives)
         self.step = None
         self.lo = 0
         self.hi = 0
@@ -166,26 +167,30 @@ class Prober:
         return out
 
     def probe(self, slots):
-        # 1. a decodable template per slot (all other ints neutral)
+        # 1. a decodable template per slot (all other ints neutral); several candidate assignments
         pending = list(slots)
-        for neutral in (0, 4, 16, 1):
-            if not pending:
-                break
-            jobs = []
-            for s in pending:
-                a = zeroed(s.ci.cls, s.template, neutral)
-                set_at(a, s.path, neutral)
-                jobs.append((s, a, "template"))
-            res = self._observe(jobs)
-            nxt = []
-            for s, (acc, val, note) in zip(pending, res):
-                if acc and val == 0:
-                    s.neutral = neutral
-                    s.template = zeroed(s.ci.cls, s.template, neutral)
-                else:
-                    s.detail = note
-                    nxt.append(s)
-            pending = nxt
+        for cand in range(6):
+            for neutral in (0, 4, 16, 1):
+                if not pending:
+                    break
+                jobs = []
+                trying = []
+                for s in pending:
+                    if cand >= len(s.candidates):
+                        continue
+                    a = zeroed(s.ci.cls, s.candidates[cand], neutral)
+                    jobs.append((s, a, "template"))
+                    trying.append(s)
+                if not jobs:
+                    break
+                res = self._observe(jobs)
+                for s, (acc, val, note), job in zip(trying, res, jobs):
+                    if acc and val == 0:
+                        s.neutral = neutral
+                        s.template = job[1]
+                        pending.remove(s)
+                    elif s.detail is None or note != "rejected":
+                        s.detail = note
         for s in pending:
             s.status = "unprobeable"
         live = [s for s in slots if s.status != "unprobeable"]
